@@ -57,7 +57,7 @@ CHECKS["C09"] = dict(level="model_checking", design="5/C09", note=_gc_note,
 CHECKS["C16"] = dict(level="model_checking", design="5/C16",
    technique="TLA+ specification Natives.tla of the signature gate in front of every built-in, over the signature table read from the running VM; TLC enumerates every call (native x argument kinds) and decides the gate's verdict; each call is replayed on the VM with concrete values (conformance of the verdict, no host failure); program families with outcomes known by construction",
    text="Every built-in of the global module and the standard library (473 natives) is called with every vector of up to 3 (thorough: 4) arguments over 15 value kinds, with boundary values per kind; TLC decides on Natives.tla whether the gate refuses the call (arity / kind) or the body runs, the VM must agree and must never panic, abort, fault or hang. Generated programs: unbounded recursion through cycles of 22 kinds of call link (functions, closures, methods, initialisers, bound methods, .call, each iterator adaptor's callback, sort, interpolation, super, index calls) on the main fiber, a launched fiber and under a native callback must end in a catchable stack-overflow error; non-callables called, launched and passed as callbacks; non-errors raised; 20 kinds of bad superclass; error classes with odd initialisers raised uncaught, caught, wrapped and under callbacks; errors while handling errors; exit() at every depth; launch of every callable kind; str() that returns a non-string, raises or recurses at every site that calls it; self-containing values; module names used before their definition ran. The frame / handler / nested-loop events of every family program are validated against Unwind.tla (frame limit, errors crossing natives, launch splitting a frame off).",
-   note="Trusts the natives dump hook and TLC. The gate's verdict is observed through its refusal messages, whose shape is learnt from the VM itself at the start of every run (probe calls with known wrong counts and kinds, generalised over name, numbers and kinds, and cross-checked on a second probe set); if the refusals cannot be recognised reliably only message-independent outcomes are judged (a call the gate must refuse went through; a host failure). Values per kind are drawn from fixed pools (boundary numbers, multi-byte strings, empty and grown collections). Quick: debug profile for everything, the calls whose body runs again under a collection at every allocation, and the release profile for a 40 000-call sample and all families; thorough: both profiles and the collection schedule for everything. Two known findings (blocking channel operation under a native callback; collector recursion on very deep structures) are listed in known_findings.json.")
+   note="Trusts the natives dump hook and TLC. The gate's verdict is observed through its refusal messages, whose shape is learnt from the VM itself at the start of every run (probe calls with known wrong counts and kinds, generalised over name, numbers and kinds, and cross-checked on a second probe set); if the refusals cannot be recognised reliably only message-independent outcomes are judged (a call the gate must refuse went through; a host failure). Values per kind are drawn from fixed pools (boundary numbers, multi-byte strings, empty and grown collections). Quick: debug profile for everything, the calls whose body runs again under a collection at every allocation, the release profile and the nan_boxing build for a 40 000-call sample and all families each; thorough: both profiles and the collection schedule for everything. Two known findings (blocking channel operation under a native callback; collector recursion on very deep structures) are listed in known_findings.json.")
 
 CHECKS["C15"] = dict(level="model_checking", design="5/C15",
    technique="TLA+ contract Frontend.tla (a pass is submit, diagnostics, then reject or accept-execute-finish; a session keeps its definitions across rejected entries), model-checked by TLC and used to validate event traces of real passes (file runs, interactive sessions) recorded from the VM; inputs from mutation of a program corpus, exhaustive short token sequences, boundary counts and nesting",
